@@ -217,6 +217,11 @@ def minimise(job, viol, tier, budget_s):
                         break
                 if time.time() > t_end:
                     break
+        # liveness verdicts depend on the fairness of the whole schedule: never cut decisions out of them
+        if vclass.startswith("HANG") or vclass == "STUCK":
+            final = os.path.join(REPLAYS, "tmp-min-%d-%d.json" % (os.getpid(), int(time.time() * 1000000) % 100000000))
+            shutil.copy(best_path, final)
+            return final
         # schedule ddmin: drop runs of the RLE (the previous worker simply keeps running)
         rp = json.load(open(best_path))
         rle = rp.get("sched_rle", [])
